@@ -25,6 +25,8 @@ class Sched:
         self.error = None
         self.switches = 0
         self.line_mode = False
+        self.kinds = {}           # thread id -> distinct yield-point kinds in first-visit order (filled when record_kinds)
+        self.record_kinds = False
 
     # -- called from worker threads
     def me(self):
@@ -38,9 +40,11 @@ class Sched:
         if tid is None or self.current != tid:
             return
         self.step += 1
+        if self.record_kinds:
+            k = self.kinds.setdefault(tid, {})
+            if kind not in k:
+                k[kind] = len(k)
         run = self.runnable()
-        if tid not in run:
-            run = run  # we are blocked: must switch
         nxt = self.policy(self.step, tid, run, kind) if len(run) > 1 or tid not in run else tid
         if nxt not in run:
             nxt = tid if tid in run else (run[0] if run else None)
@@ -198,6 +202,25 @@ def preempt_policy(points):
             others = [r for r in run if r != cur]
             if others:
                 return others[points[step] % len(others)]
+        return cur
+    return pol
+
+
+def kind_preempt_policy(thread, kind, first=0):
+    """start with thread [first]; when [thread] reaches the yield point [kind] for the first time, run the other threads (each to completion
+    or until it blocks) before it continues: one pre-emption at one source line"""
+    state = {"fired": False}
+
+    def pol(step, cur, run, k):
+        if cur is None:
+            return first if first in run else run[0]
+        if cur not in run:
+            return run[0]
+        if not state["fired"] and cur == thread and k == kind:
+            state["fired"] = True
+            others = [r for r in run if r != cur]
+            if others:
+                return others[0]
         return cur
     return pol
 
